@@ -379,7 +379,7 @@ def lib_adapter(which, config):
                     m.submodules.buf2 = buf2
                 return m
         dut = Both()
-        doms = [DomainSpec(dn, edge=config["edges"][dn], reset_less=True) for dn in c18.DOMS]
+        doms = [DomainSpec(dn, edge=config["edges"][dn], reset_less=not config.get("resets")) for dn in c18.DOMS]
         ins, outs = {}, {}
         if bdir != "i":
             ins["buf_o"], ins["buf_oe"] = buf.o, buf.oe
@@ -397,6 +397,8 @@ def lib_adapter(which, config):
         def tr(st):
             if st["k"] == "set":
                 return ("set", {st["p"].replace(".", "_"): st["v"]})
+            if st["k"] == "rst":
+                return ("drive", {k + ".rst": v for k, v in st["l"].items()} if config.get("resets") else {})
             return ("drive", {k + ".clk": v for k, v in st["l"].items()})
     elif which == "C17":
         # clock-domain-crossing primitives: registers with asynchronous set/reset driven by ordinary inputs
